@@ -361,7 +361,9 @@ def run_property(pid, tier, seed, repo='/repo', only_deductive=False, timeout=No
         functions_under_contract=[dict(function=r['function'], source_sha256_16=r.get('hash'), paths=r.get('paths'),
                                        obligations=r.get('obligations'), out_of_reach=r.get('out_of_reach'),
                                        precondition_satisfiable=r.get('pre_satisfiable'),
-                                       canary_refuted=r.get('canary_refuted')) for r in fun_info],
+                                       canary_refuted=r.get('canary_refuted'),
+                                       **({'slice_dropped_lines': r['slice_dropped_lines']} if r.get('slice_dropped_lines') else {}))
+                                  for r in fun_info],
         samples=samples,
         bounded=dict(kind='run-time reading of the same contracts on the real functions (never counted as proved)',
                      runs=rt, bound='random inputs from vf/rt/gens.py, seed %d' % seed, standins=bounded_runs),
